@@ -7,6 +7,7 @@ from collections import OrderedDict
 from cnfgen.info import info
 
 from cnfgen.localtypes import non_negative_int
+from cnfgen import _verif
 
 class ClausesView:
     """Object that represents a lit of clauses
@@ -276,6 +277,8 @@ not have any effect."""
             on the literal present in the clause. (default: True)
         """
         data = list(clause)
+        if _verif.ENABLED:
+            _verif.note_literals(self, data)
         if len(data) == 0:
             self._clauses.append([])
             return
